@@ -406,7 +406,67 @@ func init() {
 		}
 		return in.St.BV(uint64(int64(strings.Index(a, b))), 64)
 	}
-	natives["strings.IndexByte"] = func(in *Interp, fn *ssa.Function, args []Value) Value {
+	natives["strings.SplitN"] = func(in *Interp, fn *ssa.Function, args []Value) Value {
+		a, ok1 := in.cStr(args[0])
+		b, ok2 := in.cStr(args[1])
+		n, ok3 := in.cInt(args[2])
+		if !ok1 || !ok2 || !ok3 {
+			panic(in.unsupported("strings.SplitN on symbolic values"))
+		}
+		return in.strSliceVal(strings.SplitN(a, b, int(n)))
+	}
+	natives["strings.ContainsAny"] = func(in *Interp, fn *ssa.Function, args []Value) Value {
+		a, ok1 := in.cStr(args[0])
+		b, ok2 := in.cStr(args[1])
+		if !ok1 || !ok2 {
+			panic(in.unsupported("strings.ContainsAny on symbolic strings"))
+		}
+		return in.St.Bool(strings.ContainsAny(a, b))
+	}
+	natives["strings.ContainsRune"] = func(in *Interp, fn *ssa.Function, args []Value) Value {
+		a, ok1 := in.cStr(args[0])
+		b, ok2 := in.cInt(args[1])
+		if !ok1 || !ok2 {
+			panic(in.unsupported("strings.ContainsRune on symbolic values"))
+		}
+		return in.St.Bool(strings.ContainsRune(a, rune(b)))
+	}
+	natives["strings.IndexAny"] = func(in *Interp, fn *ssa.Function, args []Value) Value {
+		a, ok1 := in.cStr(args[0])
+		b, ok2 := in.cStr(args[1])
+		if !ok1 || !ok2 {
+			panic(in.unsupported("strings.IndexAny on symbolic strings"))
+		}
+		return in.St.BV(uint64(int64(strings.IndexAny(a, b))), 64)
+	}
+	natives["strings.LastIndexByte"] = func(in *Interp, fn *ssa.Function, args []Value) Value {
+		a, ok1 := in.cStr(args[0])
+		b, ok2 := in.cUint(args[1])
+		if !ok1 || !ok2 {
+			panic(in.unsupported("strings.LastIndexByte on symbolic values"))
+		}
+		return in.St.BV(uint64(int64(strings.LastIndexByte(a, byte(b)))), 64)
+	}
+	natives["strings.Compare"] = func(in *Interp, fn *ssa.Function, args []Value) Value {
+		a, ok1 := in.cStr(args[0])
+		b, ok2 := in.cStr(args[1])
+		if !ok1 || !ok2 {
+			panic(in.unsupported("strings.Compare on symbolic strings"))
+		}
+		return in.St.BV(uint64(int64(strings.Compare(a, b))), 64)
+	}
+	natives["strconv.FormatBool"] = func(in *Interp, fn *ssa.Function, args []Value) Value {
+		t := args[0].(*smt.Term)
+		return in.merge(t, &StrVal{C: "true"}, &StrVal{C: "false"})
+	}
+	natives["strconv.Quote"] = func(in *Interp, fn *ssa.Function, args []Value) Value {
+		a, ok := in.cStr(args[0])
+		if !ok {
+			return in.opaqueStr()
+		}
+		return &StrVal{C: strconv.Quote(a)}
+	}
+	natives["strings.IndexByte"] =func(in *Interp, fn *ssa.Function, args []Value) Value {
 		a, ok1 := in.cStr(args[0])
 		b, ok2 := in.cUint(args[1])
 		if !ok1 || !ok2 {
@@ -438,14 +498,84 @@ func init() {
 		}
 		return &StrVal{C: strings.TrimSuffix(a, b)}
 	}
-	natives["strings.Trim"] = func(in *Interp, fn *ssa.Function, args []Value) Value {
-		a, ok1 := in.cStr(args[0])
-		b, ok2 := in.cStr(args[1])
-		if !ok1 || !ok2 {
-			panic(in.unsupported("strings.Trim on symbolic strings"))
+	// Trim / TrimLeft / TrimRight with a concrete cutset: membership of every examined byte must be
+	// decided on the current path (constant or by the solver)
+	trim := func(name string, left, right bool) {
+		natives[name] = func(in *Interp, fn *ssa.Function, args []Value) Value {
+			s := args[0].(*StrVal)
+			cut, ok := in.cStr(args[1])
+			if !ok {
+				panic(in.unsupported(name + " with a symbolic cutset"))
+			}
+			if c, ok := s.Concrete(); ok {
+				switch {
+				case left && right:
+					return &StrVal{C: strings.Trim(c, cut)}
+				case left:
+					return &StrVal{C: strings.TrimLeft(c, cut)}
+				default:
+					return &StrVal{C: strings.TrimRight(c, cut)}
+				}
+			}
+			if s.Opaque {
+				panic(in.unsupported(name + " on an opaque string"))
+			}
+			member := func(b *smt.Term) *smt.Term {
+				m := in.St.F
+				for i := 0; i < len(cut); i++ {
+					m = in.St.Or(m, in.St.Eq(b, in.St.BV(uint64(cut[i]), 8)))
+				}
+				return m
+			}
+			// a byte whose membership depends on its value splits the result (union of lengths)
+			var trimL, trimR func(bs []*smt.Term) Value
+			trimL = func(bs []*smt.Term) Value {
+				if len(bs) == 0 {
+					return &StrVal{}
+				}
+				m := member(bs[0])
+				switch in.decided(m) {
+				case 1:
+					return trimL(bs[1:])
+				case 0:
+					return in.mkStr(bs)
+				}
+				rest, ok := in.tryAlt(m, func() Value { return trimL(bs[1:]) })
+				if !ok {
+					return in.mkStr(bs)
+				}
+				return in.merge(m, rest, in.mkStr(bs))
+			}
+			trimR = func(bs []*smt.Term) Value {
+				if len(bs) == 0 {
+					return &StrVal{}
+				}
+				m := member(bs[len(bs)-1])
+				switch in.decided(m) {
+				case 1:
+					return trimR(bs[:len(bs)-1])
+				case 0:
+					return in.mkStr(bs)
+				}
+				rest, ok := in.tryAlt(m, func() Value { return trimR(bs[:len(bs)-1]) })
+				if !ok {
+					return in.mkStr(bs)
+				}
+				return in.merge(m, rest, in.mkStr(bs))
+			}
+			var res Value = s
+			if left {
+				res = trimL(in.strBytes(s))
+			}
+			if right {
+				res = in.mapAlts(res, func(v Value) Value { return trimR(in.strBytes(v.(*StrVal))) })
+			}
+			return res
 		}
-		return &StrVal{C: strings.Trim(a, b)}
 	}
+	trim("strings.Trim", true, true)
+	trim("strings.TrimLeft", true, false)
+	trim("strings.TrimRight", false, true)
 	natives["strings.ReplaceAll"] = func(in *Interp, fn *ssa.Function, args []Value) Value {
 		a, ok1 := in.cStr(args[0])
 		b, ok2 := in.cStr(args[1])
